@@ -27,9 +27,9 @@ def staking(rnd, n, sid="S"):
                 if r < 0.22:
                     txs.append({"id": nid(), "type": "Delegate", "from": a, "args": {"pub": rnd.choice(cands + ["nobody"]), "coin": "BIP", "value": "%du" % rnd.choice([0, 1, 5, 50, 500, 3000])}})
                 elif r < 0.40:
-                    txs.append({"id": nid(), "type": "Unbond", "from": a, "args": {"pub": rnd.choice(cands), "coin": "BIP", "value": "%du" % rnd.choice([1, 5, 50, 500, 100000])}})
+                    txs.append({"id": nid(), "type": "Unbond", "from": a, "args": {"pub": rnd.choice(cands), "coin": "BIP", "value": "%du" % rnd.choice([0, 1, 5, 50, 500, 100000])}})
                 elif r < 0.52:
-                    txs.append({"id": nid(), "type": "MoveStake", "from": a, "args": {"from": rnd.choice(cands), "to": rnd.choice(cands + ["nobody", "ghost"]), "coin": "BIP", "value": "%du" % rnd.choice([1, 5, 50])}})
+                    txs.append({"id": nid(), "type": "MoveStake", "from": a, "args": {"from": rnd.choice(cands), "to": rnd.choice(cands + ["nobody", "ghost"]), "coin": "BIP", "value": "%du" % rnd.choice([0, 1, 5, 50])}})
                 elif r < 0.58:
                     txs.append({"id": nid(), "type": "LockStake", "from": a})
                 elif r < 0.64:
@@ -104,6 +104,13 @@ def targeted():
                                                    {"id": "t4", "type": "MoveStake", "from": "a2", "args": {"from": "v2", "to": "v3", "coin": "BIP", "value": "10u"}},
                                                    {"id": "t5", "type": "MoveStake", "from": "a2", "args": {"from": "v2", "to": "ghost", "coin": "BIP", "value": "10u"}}]},
                            {"op": "skip", "n": 180, "quiet": True}, {"op": "block"}])
+    # exits of nothing: no stake at all, a stake already emptied in this block, an empty amount from the wait list
+    for who, frm in (("a4", "v2"), ("o2", "v2"), ("a1", "v1"), ("a4", "nobody")):
+        sc("unbond-zero-%s-%s" % (who, frm), [{"op": "block", "txs": [{"id": "t1", "type": "Unbond", "from": who, "check": True, "args": {"pub": frm, "coin": "BIP", "value": "0u"}}]}, {"op": "skip", "n": 2}])
+        sc("move-zero-%s-%s" % (who, frm), [{"op": "block", "txs": [{"id": "t1", "type": "MoveStake", "from": who, "check": True, "args": {"from": frm, "to": "c5", "coin": "BIP", "value": "0u"}}]}, {"op": "skip", "n": 2}])
+    sc("unbond-all-then-zero", [{"op": "block", "txs": [{"id": "t1", "type": "Unbond", "from": "o3", "check": True, "args": {"pub": "v3", "coin": "BIP", "value": "3000u"}},
+                                                        {"id": "t2", "type": "Unbond", "from": "o3", "check": True, "args": {"pub": "v3", "coin": "BIP", "value": "0u"}}]},
+                                {"op": "block", "txs": [{"id": "t3", "type": "Unbond", "from": "o3", "check": True, "args": {"pub": "v3", "coin": "BIP", "value": "0u"}}]}, {"op": "skip", "n": 2}])
     # unbond and wait exactly the unbond period
     sc("unbond-period", [{"op": "block", "txs": [{"id": "t1", "type": "Unbond", "from": "o3", "args": {"pub": "v3", "coin": "BIP", "value": "100u"}}]},
                          {"op": "skip", "n": 529, "quiet": True}, {"op": "block"}, {"op": "block"}, {"op": "block"}])
